@@ -140,6 +140,12 @@ func c09StepInvariant(s *buffer.Buffer, op *bufOp, s2 *buffer.Buffer) string {
 	c1 := s.VerifClone()
 	f1 := []byte(c1.RedactableString())
 	var addS, addE []byte
+	if op.Kind == 'f' {
+		if len(st.Buf) != 0 {
+			return "" // no-op on a non-empty buffer (its mode switches are covered by the SetMode ops)
+		}
+		addS, addE = op.Text, op.Text
+	}
 	if op.Kind == 'b' {
 		switch op.Class {
 		case 'U':
